@@ -100,6 +100,29 @@ def check(ctx, fname, sname, sp, f, tags, rng):
                 y = grad(x)
                 fx = f(x)
                 fy = fc(y)
+                if np.isfinite(fx) and not np.isfinite(fy) and np.all(np.isfinite(util.to_cvec(sp, y))):
+                    # y = grad f(x) is a sub-gradient at a point of finite value: f*(y) = <x, y> - f(x) is finite.  (y may sit
+                    # one rounding error outside dom f*, e.g. x / ||x|| for the unit ball: y shrunk by 1e-12 must be inside.)
+                    n += 1
+                    with np.errstate(all='ignore'):
+                        y0 = grad(base_point(sp, rng, tags))
+                        if util.snap(y0) == util.snap(y) or (y0 - y).norm() <= 1e-12 * max(1.0, y.norm()):
+                            # constant gradient (affine functional): dom f* is a single point, which a value computed along
+                            # another route misses by a rounding error - membership is not decidable in floating point
+                            ctx.skip('affine functional: dom f* is a single point')
+                            continue
+                        near = [fc(y * (1 - t)) for t in (1e-12, 1e-9)] + [fc(y + t * (y0 - y)) for t in (1e-12, 1e-9)]
+                        if not any(np.isfinite(v) for v in near) and not any(t in tags for t in ('kl', 'klcc')):
+                            # gradients far out in opposite directions are opposite boundary points of dom f*: towards their midpoint
+                            for k in range(3):
+                                dvec = sp.one() if k == 0 else functab.rand_el(sp, rng, 1.0)
+                                mid = 0.5 * (grad(1e3 * dvec) + grad(-1e3 * dvec))
+                                near += [fc(y + t * (mid - y)) for t in (1e-12, 1e-9)]
+                    if any(np.isfinite(v) for v in near):
+                        ctx.note_add('gradient_on_the_boundary_of_dom_conj_up_to_rounding')
+                    else:
+                        ctx.violation(comp, cfg, 'conjugate-inconsistent', symptom='conjugate-infinite-at-a-gradient', fx=float(fx), name=fname, y=util.to_cvec(sp, y)[:6], x=util.to_cvec(sp, x)[:6])
+                        break
                 if np.isfinite(fx) and np.isfinite(fy):
                     n += 1
                     gap = fx + fy - x.inner(y)
